@@ -131,6 +131,10 @@ def builtin_and_optional_panics(mf, oc, scratch, profile, qs, timeout_ms, info, 
         raise V.Inconclusive("engine B disagrees with the real string built-ins on %d of %d vectors (%s), first: %r" % (len(mism), n, profile, mism[0]))
     for s_ in ssum:
         out += S.check_summary(s_, profile, qs, timeout_ms, V.seed(), "C17")
+    # the byte-indexed string methods on MULTI-BYTE text (all UTF-8 width classes, 1..2 characters): no panic
+    sk2 = S.StrKernels(mf, oc, scratch.repo, seed=V.seed())
+    for m_, variant_, ws_, iw_ in S.multibyte_shapes(tier):
+        out += S.check_multibyte_panics(S.summarize_multibyte(sk2, m_, variant_, ws_, iw_), profile, qs, timeout_ms, V.seed())
     # string indexing by character (vec_op `[k]`), every UTF-8 width class
     import strindexkernels as X
     xk = X.StrIndexKernels(mf, oc, scratch.repo, seed=V.seed())
